@@ -525,7 +525,7 @@ theorem step_projects {cfg : Cfg} {s s' : St} {op : Op} (h : step cfg s op = .ok
       | ok pr =>
         obtain ⟨id, start⟩ := pr
         rw [hne] at hn; simp only at hn
-        cases hf : Collector.forwardFees cfg.c s.c cfg.c.distributor id router acc with
+        cases hf : Collector.forwardFees (ccfg cfg s) (cview s) cfg.c.distributor id router acc with
         | err => rw [hf] at hn; cases hn
         | panic => rw [hf] at hn; cases hn
         | ok o1 =>
@@ -576,7 +576,7 @@ theorem step_projects {cfg : Cfg} {s s' : St} {op : Op} (h : step cfg s op = .ok
   | fwd sender =>
     left
     simp only [step] at h
-    cases hc : Collector.forwardFees cfg.c s.c sender 0 (fun _ _ _ => 0) (fun _ _ => 0) with
+    cases hc : Collector.forwardFees (ccfg cfg s) (cview s) sender 0 (fun _ _ _ => 0) (fun _ _ => 0) with
     | err => rw [hc] at h; cases h
     | panic => rw [hc] at h; cases h
     | ok o => rw [hc] at h; simp only at h; injection h with h; subst h; rfl
@@ -586,11 +586,9 @@ theorem step_projects {cfg : Cfg} {s s' : St} {op : Op} (h : step cfg s op = .ok
     simp only [step] at h
     split at h
     · left; injection h with h; subst h; rfl
-    · split at h
-      · right; injection h with h; subst h
-        exact ⟨.gift amount, rfl⟩
-      · left; injection h with h; subst h; rfl
-  | addRoute sender asset hops =>
+    · right; injection h with h; subst h
+      exact ⟨.gift asset amount, rfl⟩
+  | addRoute sender offer ask hops =>
     left
     simp only [step] at h
     split at h
@@ -598,7 +596,7 @@ theorem step_projects {cfg : Cfg} {s s' : St} {op : Op} (h : step cfg s op = .ok
     · split at h
       · injection h with h; subst h; rfl
       · cases h
-  | rmRoute sender asset =>
+  | rmRoute sender offer ask =>
     left
     simp only [step] at h
     split at h
@@ -606,6 +604,16 @@ theorem step_projects {cfg : Cfg} {s s' : St} {op : Op} (h : step cfg s op = .ok
     · split at h
       · cases h
       · injection h with h; subst h; rfl
+  | setDist sender asset =>
+    right
+    simp only [step] at h
+    cases hg : Distributor.setDist cfg.d s.d sender asset with
+    | err => rw [hg] at h; cases h
+    | panic => rw [hg] at h; cases h
+    | ok d' =>
+      rw [hg] at h; simp only at h
+      injection h with h; subst h
+      exact ⟨.setDist sender asset, by simp only [Distributor.step, hg]⟩
   | unreg sender pool =>
     left
     simp only [step] at h
@@ -632,7 +640,7 @@ theorem step_projects {cfg : Cfg} {s s' : St} {op : Op} (h : step cfg s op = .ok
   | aggregate sender f router acc =>
     left
     simp only [step] at h
-    cases hc : Collector.aggregateFees cfg.c s.c sender f router acc with
+    cases hc : Collector.aggregateFees (ccfg cfg s) (cview s) sender f router acc with
     | err => rw [hc] at h; cases h
     | panic => rw [hc] at h; cases h
     | ok pr =>
